@@ -23,7 +23,8 @@ DRIVERS = ["drv_c09"]
 RULE = ("one case = one generated Modelica model (connector classes with 1-3 potential and 1-2 flow variables, "
         "leaf components with linear equations, a top model — in the hierarchical streams also mid-level models with "
         "their own connectors — joined by connect clauses drawn from chains, stars, cycles, duplicate/reversed edges, "
-        "late merges of separately built sets, bridges, random pairs, self connections); non-trivial = at least two "
+        "late merges of separately built sets, bridges, random pairs, self connections; names from pools with string-prefix "
+        "related members; connector classes optionally in packages, two of them sharing the simple name); non-trivial = at least two "
         "connect clauses and at least one connection set with three or more members or one merge of two existing sets; "
         "distinct = distinct model description")
 TRUSTED = ["the heap reading of `flow_connections` in Model/Connect.lean (`Heap.step`: object identities, in-place `update`, "
@@ -349,6 +350,13 @@ def check_case(ctx, case, drv, count=True):
                 ctx.count("duplicate-edge")
             seen.add(k)
         ctx.count("ctypes-%d" % len(case["ctypes"]))
+        simple = [n.split(SEP)[-1] for n in case["ctypes"]]
+        used_types = set(e["ctype"] for e in inst.edges)
+        if len(set(simple)) < len(simple):
+            ctx.count("same-simple-name-connector-classes" + ("-both-connected" if len(used_types) > 1 else ""))
+        conn_touched = set(c for c, _i in G.touched_faces(inst))
+        if any(b != a and b.startswith(a) for a in conn_touched for b, _t, _top in inst.conns if b not in conn_touched):
+            ctx.count("unconnected-connector-name-extends-a-connected-one")
     real = run_real(text, case["top"])
     cs = dict(case, text=text)
     if real["raised"]:
